@@ -5,4 +5,8 @@ PLANS = {
         "quick": {"runs": 220, "fault_runs": 60, "wall_s": 70, "per_task_s": 120},
         "thorough": {"runs": 20000, "fault_runs": 5000, "wall_s": 900, "per_task_s": 300},
     }),
+    "C15": ("hist", {
+        "quick": {"runs": 300, "fault_runs": 120, "wall_s": 70, "per_task_s": 120},
+        "thorough": {"runs": 30000, "fault_runs": 12000, "wall_s": 900, "per_task_s": 300},
+    }),
 }
